@@ -27,7 +27,7 @@ _OPS = {ast.Add: operator.add, ast.Sub: operator.sub, ast.Mult: operator.mul, as
 _NP_FUNCS = ("multiply", "subtract", "add", "divide", "true_divide", "square", "power", "negative", "sum", "cumsum", "diff", "ediff1d",
              "dot", "matmul", "inner", "outer", "transpose", "asarray", "array", "asanyarray", "concatenate", "hstack", "vstack", "stack",
              "column_stack", "append", "insert", "flip", "ravel", "reshape", "squeeze", "expand_dims", "atleast_1d", "atleast_2d",
-             "zeros_like", "ones_like", "empty_like", "full_like", "zeros", "ones", "size", "shape", "ndim", "copy", "tensordot", "einsum",
+             "zeros_like", "ones_like", "empty_like", "full_like", "zeros", "ones", "empty", "full", "size", "shape", "ndim", "copy", "tensordot", "einsum",
              "prod", "mean", "trace", "diag", "tile", "repeat", "take", "swapaxes", "moveaxis", "clip", "arange", "linspace", "flipud", "roll")
 _ELEMENTWISE = {"log": sp.log, "exp": sp.exp, "sqrt": sp.sqrt, "abs": sp.Abs, "absolute": sp.Abs}
 
@@ -198,8 +198,19 @@ def install_nd(I):
             return out
         return orig_compare(op, a, b, node)
 
-    I.binop, I.getitem, I.getattr_, I.call_libmethod, I.iterate, I.truth, I.compare, I.kind_of = \
-        binop, getitem, getattr_, call_libmethod, iterate, truth, compare, kind_of
+    orig_setitem = I.setitem
+
+    def setitem(v, idx, value, node):
+        if isinstance(v, np.ndarray):
+            try:
+                v[_conv_index(I, idx, node)] = to_np(I, value, node)
+            except (IndexError, ValueError) as e:
+                raise I.fault(type(e).__name__, node, str(e))
+            return None
+        return orig_setitem(v, idx, value, node)
+
+    I.binop, I.getitem, I.getattr_, I.call_libmethod, I.iterate, I.truth, I.compare, I.kind_of, I.setitem = \
+        binop, getitem, getattr_, call_libmethod, iterate, truth, compare, kind_of, setitem
 
     def np_call(name):
         def f(I, a, k, n):
@@ -208,11 +219,17 @@ def install_nd(I):
             if "dtype" in kw:
                 kw.pop("dtype")          # symbolic elements: keep them as objects
             kw = {kk: (int(x) if isinstance(x, sp.Integer) else x) for kk, x in kw.items()}
-            args = [int(x) if isinstance(x, sp.Integer) and name in ("zeros", "ones", "expand_dims", "squeeze", "swapaxes", "moveaxis", "take", "repeat", "tile") else x
-                    for x in args]
+            def ints(x):
+                if isinstance(x, sp.Integer):
+                    return int(x)
+                if isinstance(x, (tuple, list)):
+                    return type(x)(ints(y) for y in x)
+                return x
+            if name in ("zeros", "ones", "expand_dims", "squeeze", "swapaxes", "moveaxis", "take", "repeat", "tile", "reshape", "full"):
+                args = [ints(x) for x in args]
             if name in ("array", "asarray", "asanyarray"):
                 return from_np(np.array(args[0], dtype=object))
-            if name in ("zeros", "ones", "zeros_like", "ones_like", "empty_like"):
+            if name in ("zeros", "ones", "zeros_like", "ones_like", "empty_like", "empty"):
                 base = getattr(np, name)(*args, **kw)
                 out = np.empty(base.shape, dtype=object)
                 out[...] = sp.Integer(0 if "ones" not in name else 1)
